@@ -376,6 +376,20 @@ def tbLineCore (d : TBDrv) (lineNo : Nat) (ts : List String) : TBDrv × List Str
       let out1 := match diffObs m o with
         | none => []
         | some f => [s!"MISMATCH tb hist={d.hist} line={p.line} after={p.label} field={f} model=[{renderModel m}]"]
+      -- The open-game manager has no lock: the harness can read its state while the continue handler is inside Setup
+      -- (game count written, participant map not yet replaced), and then sees the new count with the previous hand's
+      -- participants, all ready. Same count, same participants, everybody ready right after a set-up is that torn read
+      -- (or the gate's own stale-completion race, finding D18 of C09): the history is dropped, not judged.
+      let gateRace := out1 != [] && p.label == "continue.setup" &&
+        (match o.gate with
+         | some (gc, ps) => m.gateCount == gc && !ps.isEmpty && ps.all (·.ready) &&
+             ps.all (fun q => m.gate.any (fun r => r.id == q.id && r.idx == q.idx)) && m.gate.length == ps.length &&
+             m.gate.all (fun r => !r.ready) &&
+             diffObs { m with gate := ps } o == none
+         | none => false)
+      if gateRace then
+        ({ d with dead := true, model := none, pending := none, cnt := d.cnt.bump "dropped-torn-gate-observation" }, [])
+      else
       -- 2. monitors on the implementation's snapshot
       let (mon', vs) := TBSpec.onObs d.mon p.label p.implOk p.membership d.lastObs o
       let (d, out2) := viol { d with mon := mon' } vs p.line
